@@ -28,7 +28,9 @@ def streams(tier, seed):
             zff = rng.choice([1, 1, 2, 3]) if n <= 64 else 1
             conv = rng.random() < 0.5
             dt = Fraction(1, rng.choice([1, 2, 8, 1024]))
-            a = uniform_new(rng, 0, ["t2"], [n], "t2", x0=Fraction(0), dt=dt, cplx=True, attrs=dict(att), dattrs=dict(datt),
+            # the time axis need not start at zero (acquisition delay, leading points cut off)
+            x0 = rng.choice([Fraction(0), Fraction(0), dt * 8, Fraction(3, 2), -dt * 2])
+            a = uniform_new(rng, 0, ["t2"], [n], "t2", x0=x0, dt=dt, cplx=True, attrs=dict(att), dattrs=dict(datt),
                             rand_values=True)
             out.append([a, op_ft(a, "t2", zff=zff, shift=shift, convert=conv, ppm=400000000 if conv else None)])
             b = uniform_new(rng, 0, ["f2"], [n], "f2", x0=Fraction(-n // 2), dt=Fraction(1, 4), cplx=True, attrs=dict(att),
